@@ -23,6 +23,7 @@ def ActK.mapRef (g : String → String) : ActK → ActK
 def Item.mapRef (g : String → String) : Item → Item
   | .act c a => .act c (a.mapRef g)
   | .go far ns => .go far (ns.map (Need.mapRef g))
+  | .cond ns => .cond (ns.map (Need.mapRef g))
   | it => it
 
 def Frame.mapRef (g : String → String) (f : Frame) : Frame := { f with items := f.items.map (Item.mapRef g) }
@@ -44,6 +45,7 @@ def Item.leafy : Item → Bool
   | .go _ ns => ns.all (fun n => n.k.leafy)
   | .aux _ _ _ => true
   | .under _ => true
+  | .cond ns => ns.all (fun n => n.k.leafy)
 
 def Frame.leafy (f : Frame) : Bool := f.auxes.isEmpty && f.items.all Item.leafy
 
@@ -101,9 +103,14 @@ def lneedHolds (l : LSt) (n : Need) : Except Err Bool :=
     | .auxTag _ => .error .internal
   r.map (fun b => if n.neg then !b else b)
 
-def lcheckEnter (enters : List String) : Except Err Bool :=
+def lframeCheckEnter (l : LSt) (fn : String) : Except Err Bool :=
+  match lframe P fn with
+  | .error e => .error e
+  | .ok f => allM (lneedHolds l) f.beacts
+
+def lcheckEnter (enters : List String) (l : LSt) : Except Err Bool :=
   if enters.isEmpty then .ok false
-  else allM (fun fn => (lframe P fn).map (fun _ => true)) enters
+  else allM (lframeCheckEnter P l) enters
 
 def lframeEnter (fn : String) (l : LSt) : Except Err LSt :=
   match lframe P fn with
@@ -166,10 +173,10 @@ def lframeRecur (fn : String) (l : LSt) : Except Err LSt :=
 
 def lrecur (l : LSt) : Except Err LSt := lforEach (lframeRecur P) l.ctl.actives l
 
-def lcheckStart : Except Err Bool :=
+def lcheckStart (l : LSt) : Except Err Bool :=
   match lframe P first with
   | .error e => .error e
-  | .ok f => lcheckEnter P f.outline
+  | .ok f => lcheckEnter P f.outline l
 
 def ltransit (far : String) (needs : List Need) (l : LSt) : Except Err (Bool × LSt) :=
   match allM (lneedHolds l) needs with
@@ -180,7 +187,7 @@ def ltransit (far : String) (needs : List Need) (l : LSt) : Except Err (Bool × 
     | .error e => .error e
     | .ok ff =>
       let (exits, enters, reexens) := exEn far l.ctl.actives ff.outline []
-      match lcheckEnter P enters with
+      match lcheckEnter P enters l with
       | .error e => .error e
       | .ok false => .ok (false, l)
       | .ok true =>
@@ -341,6 +348,7 @@ theorem acts_mapRef (g : String → String) (f : Frame) (c : Ctxt) :
     cases it with
     | aux a b d => simpa [List.filterMap_cons, Item.mapRef] using ih
     | under n => simpa [List.filterMap_cons, Item.mapRef] using ih
+    | cond ns => simpa [List.filterMap_cons, Item.mapRef] using ih
     | go far ns => simpa [List.filterMap_cons, Item.mapRef] using ih
     | act c' a =>
       by_cases h : c' = c
@@ -357,6 +365,7 @@ theorem preacts_mapRef (g : String → String) (f : Frame) :
     cases it with
     | aux a b d => simpa [List.filterMap_cons, Item.mapRef] using ih
     | under n => simpa [List.filterMap_cons, Item.mapRef] using ih
+    | cond ns => simpa [List.filterMap_cons, Item.mapRef] using ih
     | go far ns => simp [List.filterMap_cons, Item.mapRef, Pre.mapRef, ih]
     | act c' a =>
       cases c' <;> simp [List.filterMap_cons, Item.mapRef, Pre.mapRef, ih]
@@ -526,6 +535,7 @@ theorem acts_leafy (f : Frame) (hf : f.leafy = true) (c : Ctxt) : ∀ a ∈ f.ac
   cases it with
   | aux x y z => simp at hm
   | under n => simp at hm
+  | cond ns => simp at hm
   | go far ns => simp at hm
   | act c' a' =>
     simp at hm
@@ -825,36 +835,6 @@ theorem allC_nil_each {α : Type} (p : α → List Nat → Except Err (Bool × L
       | false => rfl
       | true => exact ih (fun y hy => h y (by simp [hy]))
 
-theorem sim_checkEnter (hleaf : ∀ f ∈ P, f.leafy = true) (enters exits : List String) (cl : List Nat) (s : St)
-    (l : LSt) (h : Sim ι house name P first u base s0 s l) :
-    checkEnter lo u enters exits cl s = (lcheckEnter P enters).map (fun b => (b, cl)) := by
-  unfold checkEnter lcheckEnter
-  by_cases he : enters.isEmpty = true
-  · simp [he, Except.map]
-  · simp only [he]
-    apply allC_nil_each
-    intro fn _
-    rw [h.frameOf]
-    cases hf : lframe P fn with
-    | error e => rfl
-    | ok f =>
-      obtain ⟨hmem, _⟩ := lframe_mem hf
-      have : (Frame.mapRef ι f).auxes = [] := auxes_of_leafy (f := f) (hleaf f hmem)
-      simp [Except.map, this, allC]
-
-theorem sim_checkStart (hleaf : ∀ f ∈ P, f.leafy = true) (cl : List Nat) (s : St) (l : LSt)
-    (h : Sim ι house name P first u base s0 s l) :
-    checkStart lo u cl s = (lcheckStart P first).map (fun b => (b, cl)) := by
-  obtain ⟨o, ho, _, _, h3, _⟩ := h.fr
-  unfold checkStart lcheckStart
-  rw [ho]
-  simp only [h3, h.frameOf]
-  cases hf : lframe P first with
-  | error e => rfl
-  | ok f =>
-    simp only [Except.map]
-    exact sim_checkEnter lo ι house name P first u base s0 hleaf _ _ cl s l h
-
 theorem sim_needHolds (hleaf : ∀ f ∈ P, f.leafy = true) (fn : String) (hfn : ∃ f, lframe P fn = .ok f)
     (n : Need) (hn : n.k.leafy = true) (s : St) (l : LSt) (h : Sim ι house name P first u base s0 s l) :
     needHolds u fn s (n.mapRef ι) = lneedHolds l n := by
@@ -869,6 +849,71 @@ theorem sim_needHolds (hleaf : ∀ f ∈ P, f.leafy = true) (fn : String) (hfn :
   | auxTag t => simp [hk, NeedK.leafy] at hn
   | auxObj a => simp [hk, NeedK.leafy] at hn
 
+
+theorem beacts_mapRef (g : String → String) (f : Frame) :
+    (Frame.mapRef g f).beacts = f.beacts.map (Need.mapRef g) := by
+  unfold Frame.beacts Frame.mapRef
+  simp only
+  induction f.items with
+  | nil => rfl
+  | cons it rest ih =>
+    cases it <;> simp [List.flatMap_cons, Item.mapRef, ih]
+
+theorem beacts_leafy (f : Frame) (hf : f.leafy = true) : ∀ n ∈ f.beacts, n.k.leafy = true := by
+  intro n hn
+  unfold Frame.beacts at hn
+  simp only [List.mem_flatMap] at hn
+  obtain ⟨it, hit, hm⟩ := hn
+  unfold Frame.leafy at hf
+  simp only [Bool.and_eq_true, List.all_eq_true] at hf
+  have := hf.2 it hit
+  cases it with
+  | cond ns =>
+    simp only [Item.leafy, List.all_eq_true] at this
+    exact this n hm
+  | aux x y z => simp at hm
+  | under x => simp at hm
+  | go far ns => simp at hm
+  | act c a => simp at hm
+
+theorem sim_checkEnter (hleaf : ∀ f ∈ P, f.leafy = true) (enters exits : List String) (cl : List Nat) (s : St)
+    (l : LSt) (h : Sim ι house name P first u base s0 s l) :
+    checkEnter lo u enters exits cl s = (lcheckEnter P enters l).map (fun b => (b, cl)) := by
+  unfold checkEnter lcheckEnter
+  by_cases he : enters.isEmpty = true
+  · simp [he, Except.map]
+  · simp only [he]
+    apply allC_nil_each
+    intro fn _
+    unfold frameCheckEnter lframeCheckEnter
+    rw [h.frameOf]
+    cases hf : lframe P fn with
+    | error e => rfl
+    | ok f =>
+      obtain ⟨hmem, _⟩ := lframe_mem hf
+      have hl := hleaf f hmem
+      have haux : (Frame.mapRef ι f).auxes = [] := auxes_of_leafy (f := f) hl
+      have hneed : allM (needHolds u fn s) (Frame.mapRef ι f).beacts = allM (lneedHolds l) f.beacts := by
+        rw [beacts_mapRef, allM_map]
+        exact allM_congr _ _ _ (fun n hn =>
+          sim_needHolds ι house name P first u base s0 hleaf fn ⟨f, hf⟩ n (beacts_leafy f hl n hn) s l h)
+      simp only [Except.map, hneed, haux]
+      cases allM (lneedHolds l) f.beacts with
+      | error e => rfl
+      | ok b => cases b <;> rfl
+
+theorem sim_checkStart (hleaf : ∀ f ∈ P, f.leafy = true) (cl : List Nat) (s : St) (l : LSt)
+    (h : Sim ι house name P first u base s0 s l) :
+    checkStart lo u cl s = (lcheckStart P first l).map (fun b => (b, cl)) := by
+  obtain ⟨o, ho, _, _, h3, _⟩ := h.fr
+  unfold checkStart lcheckStart
+  rw [ho]
+  simp only [h3, h.frameOf]
+  cases hf : lframe P first with
+  | error e => rfl
+  | ok f =>
+    simp only [Except.map]
+    exact sim_checkEnter lo ι house name P first u base s0 hleaf _ _ cl s l h
 
 theorem sim_transit (hinj : ∀ a b, ι a = ι b → a = b) (hleaf : ∀ f ∈ P, f.leafy = true)
     (hE : ι kElapsed = statePath house name "elapsed") (hR : ι kRecurred = statePath house name "recurred")
@@ -898,7 +943,7 @@ theorem sim_transit (hinj : ∀ a b, ι a = ι b → a = b) (hleaf : ∀ f ∈ P
         obtain ⟨exits, enters, reexens⟩ := tr
         simp only []
         rw [sim_checkEnter lo ι house name P first u base s0 hleaf enters exits [] s l h]
-        cases lcheckEnter P enters with
+        cases lcheckEnter P enters l with
         | error e => exact rfl
         | ok b =>
           simp only [Except.map]
@@ -983,6 +1028,7 @@ theorem preacts_leafy (f : Frame) (hf : f.leafy = true) : ∀ p ∈ f.preacts, p
   cases it with
   | aux x y z => simp at hm
   | under n => simp at hm
+  | cond ns => simp at hm
   | go far ns =>
     simp at hm
     subst hm
